@@ -25,6 +25,10 @@ pub mod sc {
     pub open spec fn ok(s: Scanner) -> bool { live(s) && settled(s) }
     pub open spec fn tok(buf: Seq<u8>, a: int, b: int) -> Seq<u8> { buf.subrange(a, b) }
     /// where back() lands when called at offset o (> 0)
+    /// bytes of a `$name` reference without braces: [a-zA-Z0-9_-]
+    pub open spec fn vname(b: u8) -> bool {
+        (97 <= b <= 122) || (65 <= b <= 90) || (48 <= b <= 57) || b == 95u8 || b == 45u8
+    }
     pub open spec fn back_to(buf: Seq<u8>, o: int) -> int { if o >= 2 && buf[o - 1] == 10u8 && buf[o - 2] == 13u8 { o - 2 } else { o - 1 } }
     /// depfile token delimiter at position j: NUL, space, newline, or a backslash-newline continuation
     pub open spec fn dep_delim(buf: Seq<u8>, j: int) -> bool {
